@@ -67,7 +67,7 @@ def run(tier, seed):
         "every solver verdict cross-checked by a second solver (z3 4.8.12 or cvc5)",
     ]
     res.assumptions = ["compression levels are None or non-negative ints; arguments inhabit their annotated types"]
-    standard_flow(res, FILES, TARGETS, concretize, bounded_modules=[("bounded.c09", 180, 900)])
+    standard_flow(res, FILES, TARGETS, concretize, bounded_modules=[("bounded.c09", 900, 1800)])
     res.level = "proof"
     res.explanation = ("Header encoder/decoder, flag bits, text-only-for-ASCII rule, rejection of short / foreign / unknown-format input and the composition "
                        "read_envelope(make_envelope(p, c)) are proved over symbolic byte sequences; library inverses are assumed (listed) and exercised by the bounded run.")
